@@ -84,7 +84,15 @@ def _eval_config(job):
     am = anchor.AnchorModel(prog, raw)
     ctx = Ctx(pid, tier, prog, am, raw, meta, cfg)
     try:
-        mod.run(ctx)
+        try:
+            mod.run(ctx)
+        finally:
+            # (S) reviewed snapshot of the small shared helpers this property relies on (rules/snapshot.py)
+            from rules import snapshot
+            try:
+                snapshot.check_snapshot(ctx, pid)
+            except AnchorMissing:
+                pass
     except AnchorMissing:
         pass
     except Exception:
@@ -183,7 +191,7 @@ def run_property(pid, tier, replay=None):
     ev = {
         "property_id": pid, "tier": tier, "seed": seed, "level": "other",
         "coverage": {
-            "explanation": info.get("explanation", ""),
+            "explanation": info.get("explanation", "") + " (S) In addition the complete path tables (conditions => result | stores) of the small shared helpers this property relies on are compared with the reviewed snapshot rules/leaf_snapshot.json (rule id %s.S); (K) numeric kernels and leaf helpers pinned in rules/kernels.py." % pid,
             "evaluations": len(all_inst),
             "distinct_nontrivial": len(distinct),
             "rule": "rule instances (rule id, construct) enumerated from /repo's MIR facts and Accounts constraints on this run; `instances` lists every one with its verdict and source location; an instance is non-trivial when its anchor exists and an analysis was evaluated for it (rows answered from an exemption table are counted in evaluations only); distinct = distinct (rule id, construct key) across feature configurations",
